@@ -102,6 +102,8 @@ def c11(tier, seed):
         {'line': './pargs $(sh -c "echo o; echo e >&2") 2> err; cat err', 'files': {'pargs': PARGS}, 'expect_stdout': '[o]\n', 'area': 'substitution:stderr'},
         {'line': "./pargs '$(echo a)' '`echo a`'", 'files': {'pargs': PARGS}, 'expect_stdout': _argv(['$(echo a)', '`echo a`']), 'area': 'substitution:single-quoted'},
         {'line': 'alias zz="echo al"; ./pargs $(zz)', 'files': {'pargs': PARGS}, 'expect_stdout': _argv(['al']), 'area': 'substitution:alias'},
+        # the inner command is planned with its own quoting: a single-quoted $NAME inside it is not expanded by the outer line
+        {'line': "A=val; ./pargs x$(echo '$A') $(echo $A)y \"$(echo '$A')z\"", 'files': {'pargs': PARGS}, 'expect_stdout': _argv(['x$A', 'valy', '$Az']), 'area': 'substitution:inner-quoting'},
         {'line': './pargs é$(echo x)z "naïve $(echo x) end" é`echo y`z $(echo éé)', 'files': {'pargs': PARGS}, 'expect_stdout': _argv(['éxz', 'naïve x end', 'éyz', 'éé']), 'area': 'substitution:multi-byte-text-around'},
         # a builtin as the last stage of a substituted pipeline
         {'line': 'alias zq=1; ./pargs "$(echo x | alias)"', 'files': {'pargs': PARGS}, 'expect_stdout_contains': 'zq', 'area': 'substitution:pipeline-ending-in-a-builtin'},
@@ -272,6 +274,10 @@ def c13(tier, seed):
     out.append({'line': "F=ff; ./pargs hi >$F; cat ff", 'files': {'pargs': PARGS}, 'expect_stdout': _argv(['hi']), 'area': 'data:variable:written-redirection-still-works'})
     # a matched file name with range braces is one word
     out.append({'line': 'mkdir gb; touch "gb/{1..2}" gb/z; ./pargs gb/*', 'files': {'pargs': PARGS}, 'expect_stdout': _argv(['gb/z', 'gb/{1..2}']), 'area': 'data:glob:name-with-braces'})
+    # a value used inside a substitution that is only part of the word is data there as well
+    for v in ('a>b', 'x|y', '<f'):
+        out.append({'line': "V='%s'; ./pargs $(echo $V)x \"x$(echo $V)\" x`echo $V` $V$(echo $V)$V" % v, 'files': {'pargs': PARGS},
+                    'expect_stdout': _argv([v + 'x', 'x' + v, 'x' + v, v + v + v]), 'expect_only_files': ['pargs'], 'area': 'data:variable:inside-substitution-in-a-word'})
     for v in ('a>b', 'x|y'):
         out.append({'line': "V='%s'; ./pargs $(echo $V $(echo 1)) \"$(echo $(echo $V))\"" % v, 'files': {'pargs': PARGS}, 'expect_stdout': _argv([v + ' 1', v]), 'expect_only_files': ['pargs'], 'area': 'data:variable:inside-nested-substitution'})
     names = ['a>b', 'x;y', 'p|q', 'r&', '#h', '2>&1']
